@@ -644,7 +644,12 @@ def check_case(case, res: Result):
                 res.count("marks_prefix_checks_recursive")
                 rec_entered = any(e["static_rec"] and e["entered"] for e in mon.events)
                 if marks[:len(rec_prefix)] != rec_prefix or (not rec_entered and marks != exp_marks[:len(marks)]):
-                    viol.append((None, f"marks {marks}: expected everything before the top-level statement that leads "
+                    mech = None
+                    if not errored and marks == exp_marks[:len(marks)] and _block_lock_stall(rig, mon, p):
+                        # same causal shape as in the non-recursive branch: the run stalled before it reached the
+                        # recursive call because a Block in a macro body waits for the caller's block lock
+                        mech = "C41.block_in_macro_body_waits_for_callers_block_lock"
+                    viol.append((mech, f"marks {marks}: expected everything before the top-level statement that leads "
                                  f"to the first recursive call ({rec_prefix}) and at most {exp_marks}"))
         if status == "recursive":
             res.count("programs_with_reachable_recursion")
